@@ -35,6 +35,9 @@ type Knobs struct {
 	NoPoison bool `json:"no_poison,omitempty"`
 	// OtterBatch: write batch size of the memory cache backend (0 = shipped 64).
 	OtterBatch  int   `json:"otter_batch,omitempty"`
+	// OtterSkewUs: how far the memory cache's expiry sweep lags behind its
+	// one-second clock (0 = 500 µs; close to a second = just ahead of it).
+	OtterSkewUs int64 `json:"otter_skew_us,omitempty"`
 	UDPMaxBatch int   `json:"udp_max_batch"`
 	UDPCoalesce int64 `json:"udp_coalesce_us"`
 	GCEveryUs   int64 `json:"gc_every_us"` // 0 = no scheduled GC
